@@ -71,6 +71,16 @@ class LbWorld(object):
     self.downed = set()                            # serials turned Closed by a Down op
     self.expansions = 0
     self.notifier_q = None
+    if params.get('bystander_pending') and self.kind == 'aperture':
+      # a second, independent aperture balancer in the same process (another client of the same cluster) whose first
+      # channel open never finishes: its pending expansion is its own business
+      reg2 = stubs.Registry()
+      reg2.default_open = 'pending'
+      b2 = ApertureBalancerSink.Builder(server_set_provider=Prov([stubs.make_server(i) for i in range(self.n)]), min_size=1)
+      b2.next_provider = stubs.StubProvider(reg2)
+      self.lb2 = b2.CreateSink({SinkProperties.Label: 'svc2'})
+      self.lb2_open = self.lb2.Open()
+      vloop.run_ready()
     self.lb = builder.CreateSink({SinkProperties.Label: 'svc'})
     self.log = stubs.RecLog()
     self.lb._log = self.log
@@ -490,7 +500,8 @@ class LbWorld(object):
          'down_marked': set(n.channel.serial for n in nodes if n.load >= 0),
          'idle': len(self.idle_eps()), 'total': self.total_outstanding_dispatched(), 'now': self.lp.now()}
     if self.kind == 'aperture':
-      d['pending'] = len(lb._pending_endpoints)
+      # the harness's own view: members of THIS balancer whose channel open has not finished
+      d['pending'] = sum(1 for n in nodes if n.channel.open_ars)
     return d
 
   def _ema_update(self, ts, sample):
